@@ -191,8 +191,12 @@ func (p *Prog) boundsObligations(fn *ssa.Function, cache map[*ssa.Function]*Anal
 		}
 		return k
 	}
-	for _, b := range fn.Blocks {
-		for _, in := range b.Instrs {
+	// the function's own instructions and those of the helpers it calls, with
+	// the states of this function's analysis (helpers are analysed in context)
+	var instrs []ssa.Instruction
+	allInstrs(fn, func(in ssa.Instruction) { instrs = append(instrs, in) })
+	{
+		for _, in := range instrs {
 			sts := a.At[in]
 			if len(sts) == 0 {
 				continue // unreachable in the abstract semantics
@@ -434,7 +438,24 @@ func (c *Check) checkBounds(rule string, fns []string, floor int) {
 	p := c.P
 	cache := map[*ssa.Function]*Analysis{}
 	n := 0
+	// helpers seen through their callers are covered in the callers' context;
+	// one that some context could not inline is analysed on its own as well
+	var order []string
 	for _, name := range fns {
+		if f := p.Funcs[name]; f == nil || !p.absorbed(f) {
+			order = append(order, name)
+		}
+	}
+	nDirect := len(order)
+	for _, name := range fns {
+		if f := p.Funcs[name]; f != nil && p.absorbed(f) {
+			order = append(order, name)
+		}
+	}
+	for k, name := range order {
+		if k >= nDirect && !p.declined[p.Funcs[name]] {
+			continue
+		}
 		root := p.Fn(name)
 		if root == nil {
 			continue
